@@ -8,14 +8,18 @@
   ints), b7e37da (casts take exactly one argument): agreement needs NO guard any more. Two boundaries are left:
     * H4 `lowerHex` — a `0X…` literal is a number in CPython and a wrapped ValueError in the folder (`startswith('0x')`): an application
       error, allowed by the property, but the reason `refuse` carries a guard (`upperhex_counterexample`);
-    * string tokens with a backslash are outside `evalPy` (`classifyStr … = other`, answer `unsupported`): `_cat` joins token TEXTS,
-      which does not commute with decoding escapes (`escape_counterexample`; known finding `escape-merge-concat`).
+    * string tokens with a backslash are outside `evalPy` (`classifyStr … = other`, answer `unsupported`). `_cat` joins token TEXTS,
+      which does not commute with decoding escapes in general (`escape_counterexample`, the hazard); since 05486b1 the evaluator
+      refuses exactly the joins that would change an escape (`_joins_escape`, model `joinsEscape` / `catSafe`), and the shipped
+      rule is proved to keep the decoding (`join_decodes`, `catSafe_decodes`).
   Second observation point (the text py2cpp inlines for `Enum.Member.value`, Tranp/Model/EmitValue.lean): `output_agree`,
   `output_sound` (no guard on the expression; the type answer of Reflections must fit CPython's value).
   Helper lemmas: Tranp/Lemmas/Evaluator.lean, Tranp/Lemmas/EmitValue.lean.
 -/
 import Tranp.Lemmas.Evaluator
 import Tranp.Lemmas.EmitValue
+import Tranp.Lemmas.Escape
+import Tranp.Lemmas.PyInt
 
 namespace Tranp.C17
 open Tranp Tranp.Evaluator
@@ -152,15 +156,100 @@ theorem upperhex_counterexample : ¬ sound_unguarded_statement := by
 
 /-- the law `_cat` would need for tokens with escapes: decoding the joined bodies = joining the decoded bodies -/
 def cat_commutes_with_decoding_statement : Prop :=
-  ∀ l r : Str, allowString l = true → allowString r = true → decodeOct (unq (cat l r)) = decodeOct (unq l) ++ decodeOct (unq r)
+  ∀ l r : Str, allowString l = true → allowString r = true → decodeEsc (unq (cat l r)) = decodeEsc (unq l) ++ decodeEsc (unq r)
 
-/-- … is false (known finding `escape-merge-concat`): `'\1' + '2'` joins to the body `\12`, one character (newline), where
-    CPython has the two characters `\x01` `2`. This is why string tokens with a backslash are outside `evalPy`. -/
+/-- … is false for plain `_cat` (the hazard behind the former finding `escape-merge-concat`, repaired in 05486b1): `'\1' + '2'`
+    would join to the body `\12`, one character (newline), where CPython has the two characters `\x01` `2`. -/
 theorem escape_counterexample : ¬ cat_commutes_with_decoding_statement := by
   intro h
   have := h ['\'','\\','1','\''] ['\'','2','\''] (by decide) (by decide)
   revert this
   decide
+
+/-- **join_decodes**: the law holds for every pair of bodies except when the left one ends inside an escape sequence the right
+    one continues (`joinsEscape`: for bodies of valid tokens, `\o` / `\oo` at the end and an octal digit next) — for octal,
+    `\xhh` and the one-character escapes, all body texts. -/
+theorem join_decodes (l r : Str) (h : joinsEscape l r = false) : decodeEsc (l ++ r) = decodeEsc l ++ decodeEsc r := by
+  unfold decodeEsc
+  rw [decodeGo_append, decodeGo_eq .normal l, List.append_assoc]
+  congr 1
+  apply decodeGo_settled
+  unfold joinsEscape at h
+  cases hst : endState .normal l with
+  | normal => exact Or.inl rfl
+  | oct v n =>
+    refine Or.inr ⟨v, n, rfl, ?_⟩
+    rw [hst] at h
+    cases r with
+    | nil => trivial
+    | cons c cs => simpa using h
+  | backslash => rw [hst] at h; cases h
+  | hex0 => rw [hst] at h; cases h
+  | hex1 c0 v => rw [hst] at h; cases h
+
+/-- non-vacuity of `join_decodes`: `a\n` + `b`, `\\` + `1` (an escaped backslash, then a digit) and `\123` + `4` join safely. -/
+example : joinsEscape ['a','\\','n'] ['b'] = false ∧ joinsEscape ['\\','\\'] ['1'] = false ∧ joinsEscape ['\\','1','2','3'] ['4'] = false
+    ∧ joinsEscape ['\\','1'] ['2'] = true ∧ joinsEscape ['\\','1'] ['8'] = false := by
+  decide
+
+/-- **catSafe_decodes**: the shipped join rule (`assert … and not self._joins_escape(left, right)`, then `_cat`; `step` uses it)
+    satisfies the law: whatever it returns decodes to the concatenation of what the two operands decode to. -/
+theorem catSafe_decodes (l r s : Str) (hl : allowString l = true) (h : catSafe l r = .ok s) :
+    decodeEsc (unq s) = decodeEsc (unq l) ++ decodeEsc (unq r) := by
+  unfold catSafe at h
+  split at h
+  · cases h
+  · rename_i hj
+    cases h
+    rw [unq_cat hl]
+    exact join_decodes _ _ (by simpa using hj)
+
+/-- non-vacuity of `catSafe_decodes` and regression of 05486b1: `'\1' + '2'` is refused — also as an expression of the folder —,
+    `'a\n' + "b"` is joined as before. -/
+example : catSafe ['\'','\\','1','\''] ['\'','2','\''] = .error .notAllowed
+    ∧ catSafe ['\'','a','\\','n','\''] ['"','b','"'] = .ok ['\'','a','\\','n','b','\'']
+    ∧ execImpl freeOps ⟨[], []⟩ 5 (.chain ['o','n','_','s','u','m'] (.string ['\'','\\','1','\'']) [(['+'], .string ['\'','2','\''])])
+        = .error .notAllowed
+    ∧ execImpl freeOps ⟨[], []⟩ 5 (.chain ['o','n','_','s','u','m'] (.string ['\'','a','\\','n','\'']) [(['+'], .string ['"','b','"'])])
+        = .ok (.str ['\'','a','\\','n','b','\'']) := by
+  decide
+
+/-! ## the grammar of `int(<string>)` -/
+
+/-- **pyInt_accepts_iff**: the model of Python's `int(str)` for base 10 (what both evaluators apply to the un-quoted content of a
+    string argument) accepts exactly the texts `blanks sign? digit (_? digit)* blanks` and returns the value they denote; blanks are
+    C `isspace` plus the Unicode White_Space characters beyond ASCII (`wsCodes`), a digit is an ASCII digit. Everything else —
+    float-looking text, `1__0`, `_1`, `1_`, the empty text, a sign after a blank-separated digit — is a ValueError. -/
+theorem pyInt_accepts_iff (s : Str) (n : Int) : pyInt 10 s = .ok n ↔ IntText s n :=
+  ⟨pyInt_sound, pyInt_complete⟩
+
+/-- … and `pyInt` has no other answer than a value or ValueError. -/
+theorem pyInt_rejects (s : Str) : (∃ n, pyInt 10 s = .ok n) ∨ pyInt 10 s = .error .valueError := by
+  cases h : pyInt 10 s with
+  | ok n => exact Or.inl ⟨n, rfl⟩
+  | error e =>
+    refine Or.inr ?_
+    unfold pyInt at h
+    split at h
+    simp only [Nat.reduceEqDiff, if_false] at h
+    split at h
+    · cases h
+    · cases h; rfl
+
+/-- non-vacuity: `' +9_007_199_254_740_993 '` is accepted with its exact value, `2.7`, `1__0`, `1_` and `\x1c12` are rejected. -/
+example :
+    pyInt 10 [' ','+','9','_','0','0','7','_','1','9','9','_','2','5','4','_','7','4','0','_','9','9','3',' '] = .ok 9007199254740993
+    ∧ pyInt 10 [Char.ofNat 0x2003, '-', '1', '2', Char.ofNat 0x85] = .ok (-12)
+    ∧ pyInt 10 ['2','.','7'] = .error .valueError ∧ pyInt 10 ['1','_','_','0'] = .error .valueError
+    ∧ pyInt 10 ['1','_'] = .error .valueError ∧ pyInt 10 [Char.ofNat 0x1c, '1', '2'] = .error .valueError := by
+  decide
+
+/-- the evaluator's `int('<text>')` folds to `n` exactly for the texts of the grammar (`[1:-1]` of the token, then `int`). -/
+theorem int_cast_accepts_iff {F : Type} (ops : FloatOps F) (s : Str) (n : Int) :
+    onFuncCall ops ['i','n','t'] [.str s] = .ok (.int n) ↔ IntText (unq s) n := by
+  rw [← pyInt_accepts_iff]
+  simp only [onFuncCall, Generated.EvalOps.castArity, List.length_singleton, ne_eq, not_true_eq_false, if_false, if_true]
+  cases h : pyInt 10 (unq s) <;> simp [liftPy, Except.map]
 
 /-! ## the enum value text in the output (py2cpp.py:850-860) -/
 
